@@ -104,6 +104,35 @@ class Engine:
             inline = self.private_helpers(fi.mod.short) - {qualname}
         return self.summary(fi, clsbind, inline)
 
+    def walk_whole(self, qualname, parts=()):
+        """walk(), and then once more with those functions of the anchor's module inlined to which
+        the anchor hands one of its parameters as a whole (or one of the named parts of it): a
+        checker that passes its argument on to a second, public checker for "the rest of the
+        schema" keeps its path-wise facts; validators of single fields are left as calls"""
+        from .terms import P, SubC
+        from .walker import flatten_events
+
+        fi = self.prog.func(qualname)
+        inline = set(self.private_helpers(fi.mod.short) - {qualname})
+        sm = self.summary(fi, None, frozenset(inline))
+        for _round in range(3):
+            whole = {P(n) for n in sm.params}
+            whole |= {SubC(w, k) for w in set(whole) for k in parts}
+            extra = set()
+            for p in sm.paths:
+                for ev, _d in flatten_events(p.events):
+                    if ev[0] == "call" and isinstance(ev[2], str) and ev[2].startswith("repo:" + fi.mod.short + ".") and ev[3] and any(a in whole for a in ev[3]):
+                        q2 = ev[2][5:].split("[")[0].split("<")[0]
+                        if q2 in self.prog.funcs and q2 != qualname and q2 not in inline:
+                            extra.add(q2)
+            if not extra:
+                break
+            inline |= extra
+            sm = self.summary(fi, None, frozenset(inline))
+        sm.inlined_whole = frozenset(inline)
+        self.__dict__.setdefault("_whole", {})[qualname] = frozenset(inline)
+        return sm
+
     def private_helpers(self, short):
         c = self.__dict__.setdefault("_priv", {})
         if short not in c:
